@@ -22,6 +22,13 @@ CASES = [
  ('U10','fill.rs',"            line_offset += line_len;","            line_offset = line_offset + line_len;","expand += on usize"),
  ('U14','word_splitters.rs',"            if prev < word.word.len() || prev == 0 {","            if prev == 0 || prev < word.word.len() {","swap disjuncts"),
  ('U16','word_splitters.rs',"                        splits.push(idx + 1); // +1 due to width of '-'.","                        let after = idx + 1;\n                        splits.push(after);","hoist idx + 1"),
+ ('U18','refill.rs',"            if prefix.len() < options.subsequent_indent.len() {","            if options.subsequent_indent.len() > prefix.len() {","flip comparison in unfill"),
+ ('U18','refill.rs',"        if idx == 0 {\n            unfilled.push_str(&line[options.initial_indent.len()..]);\n        } else {\n            unfilled.push(' ');\n            unfilled.push_str(&line[options.subsequent_indent.len()..]);\n        }","        if idx != 0 {\n            unfilled.push(' ');\n            unfilled.push_str(&line[options.subsequent_indent.len()..]);\n        } else {\n            unfilled.push_str(&line[options.initial_indent.len()..]);\n        }","invert if/else in unfill"),
+ ('U21','refill.rs',"    new_options.initial_indent = options.initial_indent;\n    new_options.subsequent_indent = options.subsequent_indent;","    new_options.subsequent_indent = options.subsequent_indent;\n    new_options.initial_indent = options.initial_indent;","swap independent assignments in refill"),
+ ('U21','refill.rs',"    if stripped.is_some() {\n        refilled.push_str(new_line_ending);","    if !stripped.is_none() {\n        refilled.push_str(new_line_ending);","is_some as !is_none"),
+ ('U19','fill.rs',"    if text.len() < options.width && !text.contains('\\n') && options.initial_indent.is_empty() {","    if !text.contains('\\n') && text.len() < options.width && options.initial_indent.is_empty() {","swap conjuncts in fill"),
+ ('U20','word_separators.rs',"                last_stripped_idx += ch.len_utf8();","                last_stripped_idx = last_stripped_idx + ch.len_utf8();","expand += in idx_map"),
+ ('U20','word_separators.rs',"            if *idx == stripped.len() {","            if stripped.len() == *idx {","flip equality in filter"),
 ]
 bad = 0
 for unit, file, a, b, label in CASES:
